@@ -354,7 +354,7 @@ def run(prop_id, tier, seed, replay=None):
     rep = vlib.Report(prop_id, tier, seed)
     wd = vlib.workdir(prop_id)
     quick = tier == "quick"
-    jvm = ["-XX:ParallelGCThreads=2", "-Xmx3g"]
+    jvm = ["-XX:ParallelGCThreads=2", "-Xmx3g", "-Xss64m"]
     rep.rule = ("program terms generated by TLC from spec/Adev.tla (16 core programs + LCG-random programs of the bounded "
                 "grammar, every one re-checked unbiased by TLC for th in {1/4,1/2,3/4}) and 12 continuous-primitive cases; "
                 "each built with the public genjax.adev API and run with jvp_estimate over keys derived from the seed "
@@ -384,7 +384,7 @@ def run(prop_id, tier, seed, replay=None):
     else:
         th_a = threading.Thread(target=role_a)
         th_a.start()
-        nch, per = (16, 4) if quick else (16, 40)
+        nch, per = (16, 3) if quick else (16, 40)
         cfg = _cfg(os.path.join(wd, "Gen.cfg"),
                    f"CONSTANTS Big = TRUE\n Seed = {seed % 60000}\n NChains = {nch}\n NPerChain = {per}\n"
                    "SPECIFICATION SpecGen\nINVARIANT EmitCase\nINVARIANT GenUnbiased\nCHECK_DEADLOCK FALSE\n")
